@@ -581,6 +581,14 @@ Example C15_ex_calc_image_offset :
 Proof. exact ex_calc_image_offset. Qed.
 
 
+(** the hypotheses of [C15_Replay_needs_nil_safe_assume_zeros] hold for a one-event SHA1 log of PCR0; and the
+    three writers of a case *)
+Example C15_ex_replay_first_measurement :
+  let e := EventLog.mkEv 0 EventLog.EV_POST_CODE [] (Some (EventLog.mkDg 4 (repeat 17 20))) in
+  EventLog.hash_size 4 = Some 20 /\ EventLog.filter_events 20 0 4 [e] = Ok [e] /\
+  (EventLog.ev_type e =? EventLog.EV_NO_ACTION) = false /\
+  writer_of 0 = W_NIL /\ writer_of 1 = W_SINK /\ writer_of 2 = W_FAILING.
+Proof. exact ex_replay_first_measurement. Qed.
 (** a 32-byte ACM header whose Size field is 0x102 dwords *)
 Example C15_ex_lookup : 32 <= lenZ (repeat 0 24 ++ [2; 1; 0; 0] ++ repeat 0 4) /\
   outcome_of (run (lookup_acm_size faithful (repeat 0 24 ++ [2; 1; 0; 0] ++ repeat 0 4)) (repeat 0 24 ++ [2; 1; 0; 0] ++ repeat 0 4)) = Ok [1032].
